@@ -1,5 +1,6 @@
 import Pcore.Proofs.StringHash
 import Pcore.Proofs.HashPool
+import Pcore.Proofs.ArrayImpl
 /-!
 # C09 — Ordered collections behave as their abstract models
 
@@ -22,9 +23,10 @@ Full statement / proved / missing
   (`index k = some i ↔ entries[i].key = k`), `C09_sh_refine` (every result, the iteration order and the freeze
   flag after every step equal the specification's), `C09_sh_no_fault`, `C09_sh_delete_keeps_reachable`,
   `C09_sh_frozen` + `C09_sh_frozen_rejected` — proved, full strength.
-* Hash, for ANY history over a pool of hashes (literal, put, merge, delete, deleteAll, get, includes, view):
+* Hash, for ANY history over a pool of hashes (literal, put, merge, delete, deleteAll, get, includes, view, and the in-place
+  `MutableHashValue.Put`/`PutAll`):
   full statement `C09_hash_refine_full` / `C09_hash_nodup_full` (every literal included).  Proved:
-  `C09_hash_inv` and `C09_hash_refine_partial` under `LitOK` = "no literal of the history repeats a key";
+  `C09_hash_inv`, `C09_hash_refine_partial` and `C09_hash_no_fault` under `LitOK` = "no literal of the history repeats a key";
   `C09_hash_index_iff`; `C09_mutable_putAll` (MutableHashValue).  The excluded case is real:
   `C09_hash_literal_dup_keys` / `C09_hash_refine_full_fails` (known finding C09-literal-dup-keys:
   `WrapHash`/`BuildHash`/the parser keep both entries of `{a=>1,a=>2}`).
@@ -209,6 +211,24 @@ theorem C09_hash_refine_partial (ops : List (HOp α β)) (hl : ∀ op ∈ ops, L
     simp only [runHImpl, runHSpec, hs.2]
     exact ⟨by rw [this.1], this.2⟩
 
+omit [DecidableEq κ] in
+theorem stepHSpec_ne_fault [DecidableEq κ] (pool : List (List (α × β))) (op : HOp α β) : (stepHSpec key pool op).2 ≠ .fault := by
+  cases op <;> simp only [stepHSpec] <;> (repeat' split) <;> simp
+
+/-- no step of such a history ends in a Go runtime fault (slice bounds, index out of range) -/
+theorem C09_hash_no_fault (ops : List (HOp α β)) (hl : ∀ op ∈ ops, LitOK key op) (pool : List (Hash α β κ))
+    (hp : PoolInv key pool) : ∀ o ∈ (runHImpl key pool ops).1, o ≠ .fault := by
+  rw [(C09_hash_refine_partial key ops hl pool hp).1]
+  generalize absPool pool = sp
+  induction ops generalizing sp with
+  | nil => simp [runHSpec]
+  | cons op ops ih =>
+    intro o ho
+    simp only [runHSpec, List.mem_cons] at ho
+    rcases ho with rfl | ho
+    · exact stepHSpec_ne_fault key sp op
+    · exact ih (fun o ho => hl o (by simp [ho])) _ o ho
+
 /-- `valueIndex()` answers exactly the positions: `index k = some i ↔ key entries[i] = k` -/
 theorem C09_hash_index_iff {h : Hash α β κ} (hi : HInv key h) (k : κ) (i : Nat) :
     GoMap.get (h.valueIndex key).2 k = some i ↔ (h.entries[i]?).map (fun e => key e.1) = some k := by
@@ -216,14 +236,59 @@ theorem C09_hash_index_iff {h : Hash α β κ} (hi : HInv key h) (k : κ) (i : N
 
 /-- `MutableHashValue.PutAll`: never faults, the new content is the merge, the invariant is kept -/
 theorem C09_mutable_putAll {h : Hash α β κ} (hi : HInv key h) {o : List (α × β)} (ho : (keys key o).Nodup) :
-    ∃ n, h.putAll key o = some n ∧ n.entries = merge key h.entries o ∧ HInv key n := by
-  obtain ⟨n, hm, hne, hni⟩ := hi.merge ho
-  refine ⟨n, ?_, hne, hni⟩
-  simp only [Hash.merge] at hm
-  have := congrArg Prod.snd hm
-  simpa [Hash.putAll] using this
+    ∃ n, h.putAll key o = some n ∧ n.entries = merge key h.entries o ∧ HInv key n := hi.putAll ho
 
 end hash
+
+
+/-! ## types.Array: the operations as functions on immutable sequences -/
+section arr
+variable {α κ : Type} [DecidableEq κ] (key : α → κ)
+
+/-- `Add` keeps every element where it was and puts the new one at the end -/
+theorem C09_arr_add (a : List α) (v : α) (i : Nat) :
+    Arr.atIdx (Arr.add a v) i = if i < a.length then Arr.atIdx a i else if i = a.length then some v else none := by
+  simp only [Arr.atIdx, Arr.add, List.getElem?_append]
+  by_cases h : i < a.length
+  · simp [h]
+  · by_cases h2 : i = a.length
+    · simp [h2]
+    · have : i - a.length ≠ 0 := by omega
+      simp [h, h2]
+      omega
+
+theorem C09_arr_addAll (a b : List α) (i : Nat) :
+    Arr.atIdx (Arr.addAll a b) i = if i < a.length then Arr.atIdx a i else Arr.atIdx b (i - a.length) := by
+  simp only [Arr.atIdx, Arr.addAll, List.getElem?_append]
+
+/-- `Delete` removes exactly the elements equal to the argument and keeps the order of the others -/
+theorem C09_arr_delete (a : List α) (v e : α) :
+    (e ∈ Arr.delete key a v ↔ e ∈ a ∧ key e ≠ key v) ∧ (Arr.delete key a v).Sublist a := by
+  simp [Arr.delete, List.mem_filter]
+
+theorem C09_arr_deleteAll (a b : List α) (e : α) :
+    (e ∈ Arr.deleteAll key a b ↔ e ∈ a ∧ key e ∉ b.map key) ∧ (Arr.deleteAll key a b).Sublist a := by
+  simp [Arr.deleteAll, List.mem_filter]
+
+/-- `Slice(i, j)` within the bounds of the value is the sub-sequence of positions i … j-1 -/
+theorem C09_arr_slice (a : List α) (i j : Nat) (h : i ≤ j ∧ j ≤ a.length) :
+    ∃ s, Arr.slice a i j = some s ∧ s.length = j - i ∧ ∀ n, n < j - i → Arr.atIdx s n = Arr.atIdx a (i + n) := by
+  refine ⟨(a.drop i).take (j - i), by simp [Arr.slice, h], ?_, ?_⟩
+  · simp; omega
+  · intro n hn
+    simp [Arr.atIdx, List.getElem?_take, hn]
+
+/-- `Unique` keeps the first of every group of equal elements, in order -/
+theorem C09_arr_unique (a : List α) :
+    ((Arr.unique key a).map key).Nodup ∧ (Arr.unique key a).Sublist a ∧
+      ∀ e ∈ a, key e ∈ (Arr.unique key a).map key := by
+  obtain ⟨h1, _, h3, h4⟩ := Arr.uniqueFrom_spec key a []
+  exact ⟨h1, h3, fun e he => by simpa [Arr.unique] using h4 e he⟩
+
+example : Arr.unique id [1, 2, 1, 3, 2] = [1, 2, 3] ∧ Arr.delete id [1, 2, 1, 3] 1 = [2, 3] ∧
+    Arr.slice [1, 2, 3, 4] 1 3 = some [2, 3] ∧ Arr.slice [1, 2] 1 3 = none := by decide
+
+end arr
 
 /-- FULL statements (every literal included) -/
 def C09_hash_refine_full : Prop :=
